@@ -202,9 +202,14 @@ pub fn edit_atoms(atoms: &mut Vec<Atom>, edits: &[(u8, u16, u16)], ch: &mut Choo
     }
 }
 
-pub const SOUP_CHARS: [&str; 48] = [
+pub const SOUP_CHARS: [&str; 66] = [
     // look-alikes that are NOT whitespace for char::is_whitespace: must be rejected
     "\u{200B}", "\u{FEFF}", "\u{001C}", "\u{180E}",
+    // rare classes: the remaining information separators, the largest code points, the replacement character, a
+    // combining mark, characters whose case mappings change length, a non-ASCII digit and letter, NUL, DEL
+    "\u{001D}", "\u{001E}", "\u{001F}", "\u{10FFFF}", "\u{FFFF}", "\u{FFFD}", "\u{0301}", "ß", "İ", "ı", "ﬁ", "٣", "Ａ", "\u{0}", "\u{7F}",
+    // rare white space (char::is_whitespace): must be skipped
+    "\u{0085}", "\u{000B}", "\u{000C}",
     "$", "_", "a", "Z", "9", ":", "::", "/", "//", "#", "#[", "[", "]", "(", ")", "{", "}", "<", ">", ",", "\"", "@", "!", " ", "\n", "\r", "\t", "é",
     "€", "𝄞", "\u{00A0}", "\u{2028}", "start", "struct", "enum", "terminal", "$start", "$_", "x", "Foo", "$Bar", "0", ";", "-",
 ];
